@@ -106,6 +106,22 @@ def make_case(gen, rng):
             if m:
                 row[hi] = m["text"]
                 faults.append(dict(row=ri, col="HED", code=m["code"], kind=m["kind"]))
+    # a scope opened in one row and closed in the next; half the time late in a long recording with times 0.1 ms apart
+    plain_defs = [d for d in gen.defs if not d["takes_value"]]
+    if "onset" in cols and len(b["rows"]) >= 2 and plain_defs and "Onset" in gen.top and rng.random() < 0.25:
+        d = rng.choice(plain_defs)
+        i0 = rng.randrange(0, len(b["rows"]) - 1)
+        for ri, marker in ((i0, "Onset"), (i0 + 1, "Offset")):
+            row = b["rows"][ri]
+            extra = f"(Def/{d['name']}, {marker})"
+            row[hi] = extra if row[hi] in ("n/a", "") else row[hi] + ", " + extra
+        if rng.random() < 0.5:
+            oi = cols.index("onset")
+            for ri, row in enumerate(b["rows"]):
+                row[oi] = repr(round(5000.0 + (ri + 1) * 0.0001, 6))
+        scope_pair = True
+    else:
+        scope_pair = False
     # a fault inside a sidecar entry: every row selecting that key carries it, in a column that is not the first one
     cats = [c for c, k in b["kinds"].items() if k == "categorical" and c in cols]
     if not kind.startswith("spreadsheet") and cats and not tables.refs_of(b) and rng.random() < 0.3:
@@ -140,7 +156,7 @@ def make_case(gen, rng):
         b["rows"][k] = ["n/a"] * len(cols)
         blank_rows = [k]
         faults = [f for f in faults if f["row"] != k]
-    return dict(kind=kind, bundle=b, defs=defs, faults=faults, blank_rows=blank_rows)
+    return dict(kind=kind, bundle=b, defs=defs, faults=faults, blank_rows=blank_rows, scope_pair=scope_pair)
 
 
 def build_input(case, rows=None):
@@ -383,6 +399,8 @@ def check_case(case, rec):
                 rec.violation(f"validation of a row-permuted file raised {type(ex).__name__}", dict(case, perm=perm))
                 break
             rec.mon("permutation-relation")
+            if case.get("scope_pair"):
+                rec.count("permuted", "scope-pair-rows")
             was_sorted = all(order0[i] <= order0[i + 1] for i in range(n - 1))
             o2 = [order0[p] for p in perm]
             is_sorted = all(o2[i] <= o2[i + 1] for i in range(n - 1))
@@ -582,3 +600,6 @@ def finalize(merged, tier, inconclusive):
               "spreadsheet-xlsx", "spreadsheet-nonames", "hostile-cells"):
         if seen.get(k, 0) < 30:
             inconclusive.append(f"input kind '{k}' was exercised {seen.get(k, 0)} times (< 30)")
+    got = merged.hist.get("permuted", {}).get("scope-pair-rows", 0)
+    if got < 40:
+        inconclusive.append(f"row permutations of files with an Onset row followed by its Offset row: {got} (< 40)")
